@@ -294,7 +294,7 @@ func (e *env) run(kind string) (bool, string) {
 		}
 		e.inject(message.Acknowledgement, codes.Content, q2.MID, q2.Token, message.Options{{ID: message.Block2, Value: blk(0, 1, false)}}, []byte{2, 2, 2, 2})
 		return c.wait(), outcome(c)
-	case "obsOK", "obsFail", "obsSilentCancel":
+	case "obsOK", "obsFail", "obsSilentCancel", "obsAckedCancel":
 		var o interface {
 			Cancel(ctx context.Context, opts ...message.Option) error
 		}
@@ -319,6 +319,9 @@ func (e *env) run(kind string) (bool, string) {
 			e.inject(message.Acknowledgement, codes.Content, q.MID, q.Token, message.Options{{ID: message.Observe, Value: []byte{1}}}, []byte("v"))
 		case "obsFail":
 			e.inject(message.Acknowledgement, codes.NotFound, q.MID, q.Token, nil, nil)
+		case "obsAckedCancel": // acknowledged, never answered: the caller gives up while Observe() waits for the first answer
+			e.inject(message.Acknowledgement, codes.Empty, q.MID, nil, nil, nil)
+			cancel()
 		default:
 			cancel()
 		}
